@@ -85,9 +85,30 @@ package frame
 //@   ensures len: err == nil ==> written(dest) == old(written(dest)) + bodyLen(c, header, body)
 
 //@ func (*codec).EncodeHeader
-//@   prop C03
+//@   prop C03, C02, C01
 //@   assigns wstream(dest)
+//@   let w0 = written(dest)
 //@   ensures len: result == nil ==> written(dest) == old(written(dest)) + ite(header.Version >= primitive.ProtocolVersion3, int(9), int(8))
+//@   ensures version: result == nil ==> specVersion(header.Version) && wbyte(dest, w0) == uint8(header.Version) | ite(header.IsResponse, uint8(0x80), uint8(0)) && wbyte(dest, w0+1) == uint8(header.Flags)
+//@   ensures v3: result == nil && header.Version >= primitive.ProtocolVersion3 ==> primitive.wbe2(dest, w0+2) == uint16(header.StreamId) && wbyte(dest, w0+4) == uint8(header.OpCode) && primitive.wbe4(dest, w0+5) == uint32(header.BodyLength)
+//@   ensures v2: result == nil && header.Version < primitive.ProtocolVersion3 ==> int16(int8(wbyte(dest, w0+2))) == header.StreamId && wbyte(dest, w0+3) == uint8(header.OpCode) && primitive.wbe4(dest, w0+4) == uint32(header.BodyLength)
+
+// ---- C02: the frame header of the specifications (section 2 of native_protocol_v2..v5.spec, dse_protocol_v1..v2.spec) --
+//   byte 0: direction bit 0x80 | version;  byte 1: flags;  stream: 1 signed byte in v2, 2 bytes big-endian since v3;
+//   opcode: 1 byte;  length: 4 bytes big-endian.  Tables transcribed from the specifications, not from the code:
+//@ spec specVersion(v primitive.ProtocolVersion) bool = uint8(v) == 2 || uint8(v) == 3 || uint8(v) == 4 || uint8(v) == 5 || uint8(v) == 0x41 || uint8(v) == 0x42
+//@ spec specRequestOpCode(op primitive.OpCode) bool = uint8(op) == 0x01 || uint8(op) == 0x05 || uint8(op) == 0x07 || uint8(op) == 0x09 || uint8(op) == 0x0A || uint8(op) == 0x0B || uint8(op) == 0x0D || uint8(op) == 0x0F || uint8(op) == 0xFF
+//@ spec specResponseOpCode(op primitive.OpCode) bool = uint8(op) == 0x00 || uint8(op) == 0x02 || uint8(op) == 0x03 || uint8(op) == 0x06 || uint8(op) == 0x08 || uint8(op) == 0x0C || uint8(op) == 0x0E || uint8(op) == 0x10
+
+//@ func (*codec).DecodeHeader
+//@   prop C02, C01, C05, C04
+//@   assigns rstream(source)
+//@   let p0 = pos(source)
+//@   ensures nonnil: result1 == nil ==> result0 != nil
+//@   ensures version: result1 == nil ==> result0.IsResponse == (rbyte(source, p0) & 0x80 != 0) && uint8(result0.Version) == rbyte(source, p0) & 0x7f && uint8(result0.Flags) == rbyte(source, p0+1)
+//@   ensures v3: result1 == nil && result0.Version >= primitive.ProtocolVersion3 ==> uint16(result0.StreamId) == primitive.rbe2(source, p0+2) && uint8(result0.OpCode) == rbyte(source, p0+4) && uint32(result0.BodyLength) == primitive.rbe4(source, p0+5) && pos(source) == p0 + 9
+//@   ensures v2: result1 == nil && result0.Version < primitive.ProtocolVersion3 ==> result0.StreamId == int16(int8(rbyte(source, p0+2))) && uint8(result0.OpCode) == rbyte(source, p0+3) && uint32(result0.BodyLength) == primitive.rbe4(source, p0+4) && pos(source) == p0 + 8
+//@   ensures rejects: result1 == nil ==> specVersion(result0.Version) && ite(result0.IsResponse, specResponseOpCode(result0.OpCode), specRequestOpCode(result0.OpCode))
 
 //@ func (*codec).encodeFrameUncompressed
 //@   prop C03
@@ -120,7 +141,7 @@ package frame
 //@ iface RawCodec.DecodeHeader
 //@   prop C15
 //@   assigns rstream(source)
-//@   assumes nonnil: result1 == nil ==> result0 != nil
+//@   ensures nonnil: result1 == nil ==> result0 != nil
 
 //@ iface Codec.DecodeFrame
 //@   prop C15
